@@ -1159,7 +1159,7 @@ Lemma mb_nice_ok_forallb k l : Forall (mb_nice k) l -> forallb (mb_ok k) l = tru
 Proof. intros H. apply forallb_forall. intros b Hb. rewrite Forall_forall in H. apply H. exact Hb. Qed.
 Lemma arg_nice_ok f a : arg_nice f a -> arg_ok f a = true.
 Proof.
-  destruct f as [k|ks], a as [l|cols]; simpl; try contradiction.
+  destruct f as [k|ks], a as [l|cols|v|v]; simpl; try contradiction.
   - apply mb_nice_ok_forallb.
   - intros [Hks [H2 H3]]. rewrite (Forall2_length' _ _ _ H2), Nat.eqb_refl. simpl.
     assert (Hc : cols <> []) by (destruct H2; congruence).
@@ -1171,7 +1171,7 @@ Proof.
 Qed.
 Lemma arg_nice_good f a : arg_nice f a -> arg_good f a.
 Proof.
-  destruct f as [k|ks], a as [l|cols]; simpl; try contradiction.
+  destruct f as [k|ks], a as [l|cols|v|v]; simpl; try contradiction.
   - intros H. eapply Forall_impl; [|exact H]. intros b. apply mb_nice_good.
   - intros [_ [H _]]. induction H as [|kk col ks cols Hk _ IH]; constructor; [|exact IH].
     eapply Forall_impl; [|exact Hk]. intros b. apply mb_nice_good.
@@ -1181,7 +1181,7 @@ Qed.
 Lemma col_of_arg_total f a :
   arg_nice f a -> exists c, col_of_arg f a = Some c /\ col_typed f c /\ col_aligned (length (arg_cells a)) c = true.
 Proof.
-  destruct f as [k|ks], a as [l|cols]; simpl; try contradiction.
+  destruct f as [k|ks], a as [l|cols|v|v]; simpl; try contradiction.
   - intros H.
     assert (Hok : Forall (fun b => mb_ok k b = true) l) by (eapply Forall_impl; [|exact H]; intros b [X _]; exact X).
     assert (Hsm : Forall mb_small l) by (eapply Forall_impl; [|exact H]; intros b [_ X]; apply mb_fine_small; exact X).
